@@ -270,6 +270,10 @@ func (f *filler) fill(v reflect.Value, depth int) {
 		v.Set(p)
 	case reflect.Interface:
 		if t.NumMethod() != 0 {
+			if t == reflect.TypeOf((*Marker)(nil)).Elem() {
+				v.Set(reflect.ValueOf(&UJC{Got: `"m"`}))
+				return
+			}
 			if r.Chance(1, 3) {
 				return
 			}
